@@ -12,7 +12,8 @@ import (
 	"strings"
 
 	"github.com/ohler55/slip"
-	_ "github.com/ohler55/slip/pkg" // all functions
+	_ "github.com/ohler55/slip/pkg"      // all functions
+	_ "github.com/ohler55/slip/pkg/repl" // the repl package too, as in the slip command, so that every build of every check sees the same set of packages and hooks
 )
 
 // Err describes a non-value outcome.
